@@ -290,6 +290,30 @@ class CallEvent:
     def loc(self):
         return f'{self.module.rel}:{getattr(self.node, "lineno", 0)}'
 
+    @property
+    def method(self):
+        c = self.callee
+        if c[0] == 'attr':
+            return c[2]
+        if c[0] == 'alt' and all(x[0] == 'attr' for x in c[1]):
+            names = {x[2] for x in c[1]}
+            if len(names) == 1:
+                return next(iter(names))
+        if c[0] == 'name' and '.' in c[1]:
+            return c[1].rsplit('.', 1)[1]
+        return None
+
+    @property
+    def receiver(self):
+        c = self.callee
+        if c[0] == 'attr':
+            return c[1]
+        if c[0] == 'alt' and all(x[0] == 'attr' for x in c[1]):
+            return alt(*[x[1] for x in c[1]])
+        if c[0] == 'name' and '.' in c[1]:
+            return ('name', c[1].rsplit('.', 1)[0])
+        return None
+
     def arg(self, i, name=None):
         if i is not None and i < len(self.args):
             return self.args[i]
